@@ -34,6 +34,25 @@ func TestVerifReplay(t *testing.T) {
 			t.Fatalf("unknown harness %s", rf.Harness)
 		}
 		vfsReset()
+		if rf.Kind == "deadlock" {
+			// confirm the acquisition orders on the real code: lock-order graph
+			// over every sequential order of the threads
+			found := false
+			for ord := 0; ord < 6 && !found; ord++ {
+				vlkReset()
+				vlkOn, vParOrder = true, ord
+				vLoadReplay(f)
+				vhRunNative(fn)
+				vlkOn = false
+				found = vlkInversion()
+			}
+			vLoadReplay(f)
+			if found {
+				fmt.Printf("VERIF-RESULT file=%s failures=[deadlock] vacuous=false panic=%q\n", f, "")
+				continue
+			}
+			// otherwise: the real, concurrent run below (a blocked section is reported after a timeout)
+		}
 		pmsg, vac := vhRunNative(fn)
 		fmt.Printf("VERIF-RESULT file=%s failures=[%s] vacuous=%v panic=%q\n", f, strings.Join(vFailures, ","), vac, pmsg)
 		if rf.Label == "selfval" {
